@@ -14,8 +14,11 @@
 (*   startup : declared length in {-1,0,4,7,8,exact-1..exact+1,10001,      *)
 (*             MaxI32} x code in {absent, 3.0, SSLRequest} x body over      *)
 (*             {NUL,'a',0xFF} up to MaxBody bytes x trailing bytes           *)
-(*   wf      : EncodeF(m1) \o EncodeF(m2) \o rest for well-formed messages, *)
-(*             delivered in one piece and cut at every position             *)
+(*   wf      : EncodeF(m1) \o EncodeF(m2) \o rest for well-formed messages  *)
+(*             (strings with 1- to 4-byte characters, parameter lists with  *)
+(*             empty values and repeated keys) and well-framed strings that *)
+(*             are not UTF-8, delivered in one piece and cut at every        *)
+(*             position                                                     *)
 (* Family selects what is printed (one TLC run per family).                *)
 (* The ASSUMEs at the end are the spec-level theorems (round trip, prefix  *)
 (* => need more, frame bound, non-empty acceptance sets), checked by TLC   *)
@@ -62,12 +65,16 @@ StartInputs == UNION { UNION { { B4(l) \o c \o b \o t : l \in SLens(4 + Len(c) +
                  \cup { <<>>, <<0>>, <<0, 0, 0>> }
 
 \* ---------------------------------------------------------------- well-formed messages and what may follow them
-Strs == { <<>>, <<97>>, <<195, 169>>, <<83, 69, 76, 69, 67, 84, 32, 49>> }
+\* strings: empty, ASCII, 2-, 3- and 4-byte characters
+Strs == { <<>>, <<97>>, <<195, 169>>, <<226, 130, 172>>, <<240, 159, 152, 128>>, <<83, 69, 76, 69, 67, 84, 32, 49>> }
+\* not UTF-8: overlong forms, a surrogate, above U+10FFFF, a truncated character, a lone continuation byte
+BadUtf8 == { <<192, 128>>, <<224, 128, 128>>, <<240, 128, 128, 128>>, <<237, 160, 128>>, <<244, 144, 128, 128>>, <<226, 130>>, <<128>>, <<97, 255>> }
 PLists == { <<>>, << <<<<117>>, <<97>>>> >>, << <<<<117>>, <<>>>>, <<<<100, 98>>, <<195, 169>>>> >>, << <<<<117>>, <<97>>>>, <<<<117>>, <<98>>>> >> }
 RegMsgs == { Query(s) : s \in Strs } \cup { Password(s) : s \in Strs } \cup { Terminate }
 StartMsgs == { SSLRequest } \cup { Startup(v, ps) : v \in {V30, 0, -1}, ps \in PLists }
 Rests == { <<>>, <<0>>, <<255, 255, 255, 255, 255>>, <<81, 0, 0, 0>> }
 WfReg   == { EncodeF(m1) \o EncodeF(m2) \o r : m1 \in RegMsgs, m2 \in {Terminate, Query(<<97>>)}, r \in Rests }
+              \cup { Frame(ty, CStr(s)) \o r : ty \in {TyQ, TyP}, s \in BadUtf8, r \in { <<>>, EncodeF(Terminate) } }
 WfStart == { EncodeF(m1) \o EncodeF(m2) \o r : m1 \in StartMsgs, m2 \in {Terminate, Query(<<97>>)}, r \in Rests }
               \cup { EncodeF(SSLRequest) \o EncodeF(Startup(V30, << <<<<117>>, <<97>>>> >>)) \o EncodeF(Query(<<97>>)) }
 
